@@ -3,6 +3,7 @@
 -/
 import PonyVerif.Model.DbSession
 namespace PonyVerif.Model.DbSession
+open PonyVerif.Gen
 
 /-- the thread is outside every db_session and holds no uncommitted change -/
 def Clean (s : St) : Prop := s.counter = 0 ∧ s.session = none ∧ s.pending = []
@@ -27,6 +28,97 @@ theorem Preserves.trans {a b c : St} (h1 : Preserves a b) (h2 : Preserves b c) :
   obtain ⟨w2, hw2⟩ := h2.pending
   exact ⟨h2.counter.trans h1.counter, h2.session.trans h1.session, h2.committed.trans h1.committed,
     h2.ncommit.trans h1.ncommit, ⟨w1 ++ w2, by rw [hw2, hw1, List.append_assoc]⟩⟩
+
+/-! ### bridges: what the definitions regenerated from the source (Gen/DbSessionGen.lean) compute at the places where
+the model uses them.  These lemmas are re-checked against the regenerated file on every run; every later proof goes
+through them, so a change of the source at one of these places breaks the theorems that depend on it. -/
+
+theorem allowedDecision_eq (o : Opts) (exc : Option Exc) :
+    allowedDecision o exc = (match exc with | none => .yes | some e => o.allowed e) := by
+  cases exc <;> cases hc : o.allowedCallable <;> simp [allowedDecision, DbSessionGen.canCommit, hc]
+
+theorem commitOrRollback_eq (env : Env) (o : Opts) (exc : Option Exc) (s : St) :
+    commitOrRollback env o exc s =
+      (let r : St × Option Exc :=
+        match exc with
+        | none => commit env s
+        | some e =>
+          match o.allowed e with
+          | .raises e' => (rollback s, some e')
+          | .yes => commit env s
+          | .no => (rollback s, none)
+       ({ r.1 with session := none }, r.2)) := by
+  simp only [commitOrRollback, allowedDecision_eq, DbSessionGen.commitBranchCommits, DbSessionGen.elseBranchRollsBack,
+    DbSessionGen.clearsSession, if_true]
+  cases exc with
+  | none => rfl
+  | some e => cases o.allowed e <;> rfl
+
+theorem enter_eq (o : Opts) (s : St) :
+    enter o s =
+      (match s.session with
+       | none => if s.counter ≠ 0 then .error .assertion else .ok { s with session := some o.sess, counter := s.counter + 1 }
+       | some cur =>
+         if o.ddl && !cur.ddl then .error .ddlInsideNonDdl
+         else if o.serializable && !cur.serializable then .error .serInsideNonSer
+         else .ok { s with counter := s.counter + 1 }) := by
+  simp only [enter, DbSessionGen.counterAfterEnter]
+  rfl
+
+theorem exit_eq (env : Env) (o : Opts) (exc : Option Exc) (s : St) :
+    exit env o exc s =
+      (let s1 := { s with counter := s.counter - 1 }
+       if s1.counter = 0 then
+         if s1.session.map (·.sid) ≠ some o.sid then (s1, some .assertion)
+         else commitOrRollback env o exc s1
+       else (s1, none)) := by
+  simp only [exit, DbSessionGen.counterAfterExit, DbSessionGen.exitIsOutermost, DbSessionGen.exitPassesExc, if_true]
+  by_cases h : s.counter - 1 = 0 <;> simp [h]
+
+theorem doRetry_eq (env : Env) (o : Opts) (e : Exc) :
+    doRetry env o e = if env.shouldRetry e then .yes else o.retryable e := by
+  cases hc : o.retryCallable <;> simp [doRetry, DbSessionGen.doRetry, hc]
+
+theorem loopExc_eq (e : Exc) : loopExc e = some e := by
+  simp [loopExc, DbSessionGen.loopExitPassesExc]
+
+theorem loopFuel_eq (retry : Nat) : DbSessionGen.loopFuel retry = retry + 1 := rfl
+
+theorem attempt_eq (env : Env) (o : Opts) (run : Nat → St → St × Outcome) (i : Nat) (s1 : St) :
+    attempt env o run i s1 =
+      (let b := run i s1
+       let c : St × Option Exc := match b.2 with
+         | .ret => commit env b.1
+         | .raise e => (b.1, some e)
+       let a : Att := ⟨s1, b.1.pending, b.2, c.2⟩
+       match c.2 with
+       | none =>
+         let x := exit env o none c.1
+         (x.1, .done (match x.2 with | none => .ret | some e' => .raise e'), a)
+       | some e =>
+         match doRetry env o e with
+         | .yes =>
+           let x := exit env o (some e) (rollback c.1)
+           (x.1, (match x.2 with | some e' => .done (.raise e') | none => .again e), a)
+         | .no =>
+           let x := exit env o (some e) c.1
+           (x.1, .done (.raise (x.2.getD e)), a)
+         | .raises e' =>
+           let x := exit env o (some e) c.1
+           (x.1, .done (.raise (x.2.getD e')), a)) := by
+  simp only [attempt, loopExc_eq, DbSessionGen.commitAfterBody, DbSessionGen.retryPathRollsBack, if_true]
+  rfl
+
+theorem flaskExit_eq (env : Env) (ponySession : Option Opts) (exception : Option Exc) (s : St) :
+    flaskExit env ponySession exception s =
+      (match ponySession with
+       | none => (s, none)
+       | some session => exit env session exception s) := by
+  simp only [flaskExit, DbSessionGen.flaskExitPassesType, if_true]
+  rfl
+
+theorem isAllowedException_eq (isResp isErr : Bool) :
+    DbSessionGen.isAllowedException isResp isErr = (isResp && !isErr) := rfl
 
 /-- would this `commit()` go through? (nothing pending: nothing to do) -/
 def commitOK (env : Env) (n : Nat) (ws : List Write) : Bool :=
@@ -72,7 +164,8 @@ theorem cor_spec (env : Env) (o : Opts) (exc : Option Exc) (s : St) :
                committed := s.committed ++ (if wantsCommit o exc && commitOK env s.ncommit s.pending then s.pending else []),
                ncommit := if wantsCommit o exc && !(s.pending.isEmpty) then s.ncommit + 1 else s.ncommit } ∧
     (commitOrRollback env o exc s).2 = corErr env o exc s.ncommit s.pending := by
-  unfold commitOrRollback corErr wantsCommit
+  rw [commitOrRollback_eq]
+  unfold corErr wantsCommit
   cases exc with
   | none =>
     have h := commit_spec env s
@@ -93,17 +186,17 @@ def Entered (o : Opts) (s : St) : Prop := s.counter = 1 ∧ s.session = some o.s
 theorem enter_clean (o : Opts) (s : St) (h : Clean s) :
     enter o s = .ok { s with session := some o.sess, counter := 1 } := by
   obtain ⟨h1, h2, _⟩ := h
-  simp [enter, h1, h2]
+  simp [enter_eq, h1, h2]
 
 theorem exit_entered (env : Env) (o : Opts) (exc : Option Exc) (s : St) (h : Entered o s) :
     exit env o exc s = commitOrRollback env o exc { s with counter := 0 } := by
   obtain ⟨h1, h2⟩ := h
-  simp [exit, h1, h2, Opts.sess]
+  simp [exit_eq, h1, h2, Opts.sess]
 
 theorem exit_inner (env : Env) (o : Opts) (exc : Option Exc) (s : St) (h : 1 < s.counter) :
     exit env o exc s = ({ s with counter := s.counter - 1 }, none) := by
   have : s.counter - 1 ≠ 0 := by omega
-  simp [exit, this]
+  simp [exit_eq, this]
 
 /-- the state in which the body of an outermost session `o` starts -/
 def entered (o : Opts) (s : St) : St := { s with session := some o.sess, counter := 1 }
@@ -196,7 +289,7 @@ theorem attempt_spec (env : Env) (o : Opts) (run : Nat → St → St × Outcome)
     | none =>
       have hok : commitOK env s1.ncommit bs.pending = true := (commitOK_iff _ _ _).2 hce
       have hx := exit_top' env o none (commit env bs).1 (by rw [hc.1]; exact heb)
-      simp only [attempt, hb, hc.2, hce]
+      simp only [attempt_eq, hb, hc.2, hce]
       refine ⟨trivial, hx.1, ?_, ?_, ?_⟩
       · rw [hx.2.2.1, hc.1]
       · rw [hx.2.1, hc.1]
@@ -216,7 +309,7 @@ theorem attempt_spec (env : Env) (o : Opts) (run : Nat → St → St × Outcome)
       rw [hpc, hcc, hct] at hx
       have hrb : rollback (commit env bs).1 = (commit env bs).1 := by
         simp only [rollback]; rw [← hpc]
-      simp only [attempt, hb, hc.2, hce]
+      simp only [attempt_eq, hb, hc.2, hce]
       cases hd : doRetry env o e with
       | yes =>
         simp only [hrb]
@@ -241,7 +334,7 @@ theorem attempt_spec (env : Env) (o : Opts) (run : Nat → St → St × Outcome)
           simp [this, attCommits, hnok]
         · rw [hx.2.2.2]; simp [attOutSpec, hd, corErr, commitErr]
   | raise e =>
-    simp only [attempt, hb]
+    simp only [attempt_eq, hb]
     cases hd : doRetry env o e with
     | yes =>
       have her : Entered o (rollback bs) := heb
@@ -455,17 +548,17 @@ theorem flask_inner (env : Env) (hooked : Bool) (view : St → St × Outcome) (h
   unfold flaskRequest
   cases hooked with
   | false =>
-    simp only [Bool.false_eq_true, if_false, flaskExit]
+    simp only [Bool.false_eq_true, if_false, flaskExit_eq]
     exact hr s hc hs
   | true =>
     have he : enter (defaultOpts env) s = .ok { s with counter := s.counter + 1 } := by
-      unfold enter
+      rw [enter_eq]
       cases hss : s.session with
       | none => rw [hss] at hs; cases hs
       | some cur => simp [defaultOpts]
     simp only [if_true, flaskEnter, ne_eq]
     have h0 : (defaultOpts env).retry = 0 := rfl
-    simp only [h0, not_true_eq_false, if_false, he, flaskExit]
+    simp only [h0, not_true_eq_false, if_false, he, flaskExit_eq]
     have hp := hr { s with counter := s.counter + 1 } (by simp; omega) (by simpa using hs)
     rw [exit_inner env _ _ _ (by rw [hp.counter]; simp; omega)]
     obtain ⟨ws, hws⟩ := hp.pending
@@ -551,12 +644,13 @@ theorem step_spec (env : Env) (o : Opts) (seg : Seg) (resume : Resume) (s : St) 
   simp only at h1 h2 h3
   subst h1 h2 h3
   cases resume with
-  | close => simp [wrappedInteract, rollback, Clean, stepCommits, stepOutSpec]
-  | throw e => simp [wrappedInteract, rollback, Clean, stepCommits, stepOutSpec]
+  | close => simp [wrappedInteract, rollback, Clean, stepCommits, stepOutSpec, DbSessionGen.genCounterInside, DbSessionGen.genCounterAfter]
+  | throw e => simp [wrappedInteract, rollback, Clean, stepCommits, stepOutSpec, DbSessionGen.genCounterInside, DbSessionGen.genCounterAfter]
   | next =>
     obtain ⟨ws, mc, late, fin⟩ := seg
     cases mc <;> cases fin <;> cases ws <;> cases late <;> cases hf : env.commitFail n <;> cases hf1 : env.commitFail (n + 1) <;>
-      simp [wrappedInteract, commit, rollback, addWrites, Clean, stepCommits, stepOutSpec, commitOK, commitErr, hf, hf1]
+      simp [wrappedInteract, commit, rollback, addWrites, Clean, stepCommits, stepOutSpec, commitOK, commitErr, hf, hf1,
+        DbSessionGen.genCounterInside, DbSessionGen.genCounterAfter]
 
 theorem iterLoop_clean (env : Env) (o : Opts) :
     ∀ (steps : List (Seg × Resume)) (s : St), Clean s →
@@ -595,13 +689,13 @@ theorem iterGen_clean (env : Env) (o : Opts) (steps : List (Seg × Resume)) (s :
 theorem flask_eq_cm (env : Env) (view : St → St × Outcome) (s : St) (hc : Clean s) :
     flaskRequest env true view s = cm env (defaultOpts env) view s := by
   have h0 : (defaultOpts env).retry = 0 := rfl
-  simp only [flaskRequest, flaskEnter, cm, h0, ne_eq, not_true_eq_false, if_false, if_true, enter_clean _ s hc, flaskExit]
+  simp only [flaskRequest, flaskEnter, cm, h0, ne_eq, not_true_eq_false, if_false, if_true, enter_clean _ s hc, flaskExit_eq]
 
 /-! ### nothing leaks out of a top-level construct -/
 
 theorem decorated_top (env : Env) (o : Opts) (run : Nat → St → St × Outcome) (s : St) (hc : Clean s) :
     decorated env o run s = loop env o run (o.retry + 1) 0 none s := by
-  simp [decorated, hc.1]
+  simp [decorated, hc.1, loopFuel_eq]
 
 theorem exec_clean (env : Env) (p : Prog) : ∀ s, Clean s → Clean (exec env p s).1 := by
   induction p with
